@@ -25,6 +25,8 @@ ASSUMPTIONS = [
     "on the serial drivers in_transaction=True is documented as internal to run_sequence(), so manual transactions "
     "with device-type commands are not generated there; hasseb carries 16-bit frames only",
     "a cancelled caller may leave a prefix of its unit on the wire; whatever it put there must still be contiguous",
+    "a caller that issues several in-transaction sends concurrently ('par') interleaves its own frames by its own choice: "
+    "such callers carry no device-type commands and the order of their frames is not judged, only contiguity of the unit",
 ]
 
 ASYNC = ["tridonic", "hasseb", "luba", "sci"]
@@ -167,20 +169,25 @@ def case_strategy(draw, driver=None):
     callers = []
     pool = PLAIN + DT + (K24 if drv != "hasseb" else [])
     for ci in range(n):
-        kind = draw(st.sampled_from(["send", "seq", "seq", "txn"]))
-        ncmd = 1 if kind == "send" else draw(st.integers(1, 5))
+        kind = draw(st.sampled_from(["send", "seq", "seq", "txn"] + (["par"] if drv in ("tridonic", "hasseb") else [])))
+        # a sequence may consist of sleep/progress items only, or raise before its first command
+        ncmd = 1 if kind == "send" else draw(st.integers(2, 4)) if kind == "par" else draw(st.integers(0, 5))
         cmds = []
         for j in range(ncmd):
             k = draw(st.sampled_from(pool))
             if kind == "txn" and drv in ("luba", "sci") and k in DT:
                 k = "reset"
+            if kind == "par" and k in DT:
+                # sends issued concurrently by ONE caller inside its own transaction interleave with each other by the
+                # caller's choice; the property speaks of frames of OTHER callers, so no device-type command here
+                k = "qlevel"
             c = {"k": k, "a": 2 + ci * 9 + j}
             if sc.build_cmd(c).response is not None:
                 o = draw(st.sampled_from(["silent", "value"]))
                 c["oc"] = ["value", draw(st.integers(0, 255))] if o == "value" else ["silent"]
             cmds.append(c)
         if kind in ("seq", "txn"):
-            for _ in range(draw(st.integers(0, 2))):
+            for _ in range(draw(st.integers(0 if cmds else 1, 2))):
                 item = draw(st.sampled_from([{"k": "sleep", "d": 0.001}, {"k": "sleep", "d": 0.03}, {"k": "sleep", "d": 0.25},
                                              {"k": "progress"}]))
                 cmds.insert(draw(st.integers(0, len(cmds))), dict(item))
